@@ -117,7 +117,10 @@ CFG = dict(
                "finite, and on dyadic-grid data (the generated k/4 inputs) no operation rounds, so the binary64 run equals the "
                "exact run; for the other accumulator families (mean, var, skew, kurt, ewm, wma, cross sums, trend) the rounding "
                "bound is still only the tolerance of the two-history runs. Tied to the code by relational runs on the implementation (all "
-               "cuts, bit for bit; two histories) plus the model run on every prefix.",
+               "cuts, bit for bit; two histories) plus the model run on every prefix, and statically (translator, Proofs/SrcTablesRoll.v, "
+               "re-checked on every run): which entry points clamp the window to the series length before computing min_periods — the one "
+               "thing that makes a prefix behave differently (DESIGN 5.3) — is re-extracted from the Rust source text of all 38 `fn ts_*` and "
+               "proved equal to the models (exactly the five cmp.rs functions; every other effective min_periods is length-independent).",
     level_note="Trusted: Coq kernel (+ Reals axioms for the window-only statements); the models of the rolling families; DESIGN 5.2 "
                "(finite bounded histories: an infinite or overflowing history poisons the accumulators forever) and 5.3 (omitted "
                "min_periods of the extrema/rank family only for len >= w).",
